@@ -5,6 +5,15 @@
 import DV.Model.Node
 import DV.Model.Decode
 
+namespace DV
+
+/-- Every required attribute definition of every class has a dictionary entry
+    (so `validate_message_avps` can always build its Failed-AVP member). -/
+def requiredDefsResolvable (dict : DTree) (cs : List ClassDef) : Bool :=
+  cs.all fun c => c.defs.all fun d => !d.required || (lookupDict dict d.code d.vendor).isSome
+
+end DV
+
 namespace DV.Node
 open DV
 
